@@ -85,7 +85,13 @@ func (g *gen) tok(prefix string) string {
 	return fmt.Sprintf("%s%d", prefix, g.n)
 }
 
-func (g *gen) text() *Text { return &Text{S: g.tok("T") + ";"} }
+// text: literal text; now and then with percent signs (nothing on the way to the writer treats output as a format)
+func (g *gen) text() *Text {
+	if g.r.Intn(6) == 0 {
+		return &Text{S: g.tok("T") + "%d 100%% %s;"}
+	}
+	return &Text{S: g.tok("T") + ";"}
+}
 
 func (g *gen) push() { g.frames = append(g.frames, nil) }
 func (g *gen) pop()  { g.frames = g.frames[:len(g.frames)-1] }
